@@ -305,13 +305,13 @@ pub fn run(ctx: &Ctx) -> Report {
         &format!("generated[{}]", ctx.variant),
         "config x 1..5 orientations x 0..4 drawing calls (in-bounds and arbitrary coordinates) issued afterwards; oracle: twin built with the last orientation (orientation(), size(), bounding_box(), controller MADCTL, frame memory after the program) and the reference image",
     );
-    run_generated(&mut sec, ctx.seed, ctx.cases(150_000, 3_000_000), ctx.workers, || strategy(gen::ConfigMenu::all_transports()), check, sig);
+    run_generated(&mut sec, ctx.seed, ctx.cases(200_000, 3_000_000), ctx.workers, || strategy(gen::ConfigMenu::all_transports()), check, sig);
     rep.sections.push(sec);
     let mut sec = Section::new(
         &format!("life-cycle[{}]", ctx.variant),
         "config x history of 1..10 steps over {set_orientation, drawing call (in-bounds for one of the two logical shapes or arbitrary coordinates), sleep+wake / scroll / tearing}; the expected frame memory is accumulated in physical cells: every drawing call is placed and clipped according to the orientation in force when it was issued; every cell compared at the end; non-trivial = at least one drawing call after an effective orientation change",
     );
-    run_generated(&mut sec, ctx.seed ^ 0x11fe, ctx.cases(100_000, 2_500_000), ctx.workers, || life_strategy(gen::ConfigMenu::all_transports()), check_life, |_, r| {
+    run_generated(&mut sec, ctx.seed ^ 0x11fe, ctx.cases(200_000, 3_000_000), ctx.workers, || life_strategy(gen::ConfigMenu::all_transports()), check_life, |_, r| {
         format!("c10:life:{}", if r.contains("although no drawing") { "stray" } else if r.contains("puts") { "placement" } else { "other" })
     });
     rep.sections.push(sec);
